@@ -172,6 +172,8 @@ func init() {
 			for L := int64(1); L <= 17; L++ {
 				js = append(js, job(pkgCodec, "HarnessC17Name", L))
 			}
+			// every documented name with one letter replaced by 1..3 arbitrary bytes (multi-byte look-alikes included)
+			js = append(js, noMapOrder(job(pkgCodec, "HarnessC17Near", 1)), noMapOrder(job(pkgCodec, "HarnessC17Near", 2)), noMapOrder(job(pkgCodec, "HarnessC17Near", 3)))
 			maxN := int64(3)
 			if tier == "thorough" {
 				maxN = 5
@@ -179,7 +181,7 @@ func init() {
 			for n := int64(0); n <= maxN; n++ {
 				js = append(js, job(pkgServer, "HarnessC17Admit", n, 0))
 			}
-			js = append(js, job(pkgServer, "HarnessC17Admit", 1, 1))
+			js = append(js, job(pkgServer, "HarnessC17Admit", 1, 1), job(pkgServer, "HarnessC17AdmitHist", 1, 1), job(pkgServer, "HarnessC17AdmitHist", 0, 2))
 			js = append(js, job(pkgServer, "HarnessC17Size", 3, 2, 16, 64), job(pkgServer, "HarnessC17Size", 9, 1, 16, 64), job(pkgServer, "HarnessC17Size", 1, 9, 16, 64))
 			js = append(js, job(pkgServer, "HarnessC17RspSize", 4, 5, 20), job(pkgServer, "HarnessC17RspSize", 0, 1, 12))
 			if tier == "thorough" {
@@ -188,7 +190,7 @@ func init() {
 			return js
 		},
 		Bounds: func(tier string) string {
-			return "command names: EVERY byte string of length 1..17 with 0..6 arguments against Transform2Type; end to end: every documented command in any letter case plus 6 undocumented names, 0..3 (quick) / 0..5 (thorough) one-byte arguments, followed by a second request in the same read, with and without a configured password; size: two pipelined requests with the limit an arbitrary value in [16,64]; reply limit arbitrary in [5,20]"
+			return "command names: EVERY byte string of length 1..17 with 0..6 arguments against Transform2Type, and every documented name with any one letter replaced by 1..3 arbitrary bytes; end to end: every documented command in any letter case plus 6 undocumented names, 0..3 (quick) / 0..5 (thorough) one-byte arguments, followed by a second request in the same read, with and without a configured password, also for a client that connects after another one went away in the middle of a request (same descriptor number, or still connected); size: two pipelined requests with the limit an arbitrary value in [16,64]; reply limit arbitrary in [5,20]"
 		},
 		Assumptions: []string{"documented set = rows marked Yes in docs/command.md (parsed at check time) plus AUTH", "arity oracle: an independent table of the documented protocol's arity classes (exact n / at least one / even), EVAL and EVALSHA need script, numkeys and a key"},
 		Stubs:       []string{stubWorld},
@@ -315,15 +317,15 @@ func init() {
 	register(&CheckSpec{ID: "C16", Patterns: []string{pkgServer},
 		Jobs: func(tier string) []*JobCfg {
 			if tier == "thorough" {
-				return []*JobCfg{world(16, 2, 0, 9, kG|kM, fTimeout), world(16, 3, 0, 8, kG, fTimeout), world(16, 1, 1, 8, kG|kM, fTimeout), world(16, 2, 0, 8, kG|kM, fTimeout|fSplit), world(16, 3, 0, 8, kG|kM, fTimeout|fBatch), world(16, 2, 1, 7, kG, fTimeout|fBatch)}
+				return []*JobCfg{world(16, 2, 0, 9, kG|kM, fTimeout), world(16, 3, 0, 8, kG, fTimeout), world(16, 1, 1, 8, kG|kM, fTimeout), world(16, 2, 0, 8, kG|kM, fTimeout|fSplit), world(16, 3, 0, 8, kG|kM, fTimeout|fBatch), world(16, 2, 1, 7, kG, fTimeout|fBatch), noMapOrder(job(pkgServer, "HarnessC16Seq", 7))}
 			}
-			return []*JobCfg{world(16, 2, 0, 7, kG|kM, fTimeout), world(16, 3, 0, 6, kG, fTimeout), world(16, 2, 0, 6, kG, fTimeout|fBatch), world(16, 1, 1, 6, kG, fTimeout)}
+			return []*JobCfg{world(16, 2, 0, 7, kG|kM, fTimeout), world(16, 3, 0, 6, kG, fTimeout), world(16, 2, 0, 6, kG, fTimeout|fBatch), world(16, 1, 1, 6, kG, fTimeout), noMapOrder(job(pkgServer, "HarnessC16Seq", 5))}
 		},
 		Bounds: func(tier string) string {
-			return "pipelines of 2..3 requests (GET / two-key MGET), timeout 50 ms of model time, time passes beyond the timeout at ANY single point of every schedule up to 6/8 events, backends may answer before, after or never; at quiescence every request has exactly one reply, in order, the connection is open"
+			return "pipelines of 2..3 requests (GET / two-key MGET), timeout 50 ms of model time, time passes beyond the timeout at ANY single point of every schedule up to 6/8 events, backends may answer before, after or never; at quiescence every request has exactly one reply, in order, the connection is open; sequences of 5 (thorough 7) requests on one connection, each answered in time or timed out with its late reply arriving at once or with the next reply (several timeouts per run, request objects recycled)"
 		},
 		Assumptions: []string{worldAssume, "model clock: each clock reading advances 1 microsecond, 'time passes' advances 70 ms; the timeout sweep runs after every event as at the end of every poller iteration"}, Stubs: []string{stubWorld},
-		Outside: []string{"real time, the 200 ms epoll cadence, several separate timeouts in one run"}})
+		Outside: []string{"real time, the 200 ms epoll cadence, several separate timeouts within one pipeline"}})
 	register(&CheckSpec{ID: "C13", Patterns: []string{pkgServer},
 		Jobs: func(tier string) []*JobCfg {
 			js := []*JobCfg{job(pkgServer, "HarnessC13", 0, 1), job(pkgServer, "HarnessC13", 1, 1), job(pkgServer, "HarnessC13", 0, 2), job(pkgServer, "HarnessC13", 1, 2),
